@@ -98,45 +98,85 @@ def run_reference(job):
     return out
 
 
+def _worker(fn, inq, outq):
+    import os
+
+    while True:
+        item = inq.get()
+        if item is None:
+            return
+        i, job = item
+        outq.put(("start", i, os.getpid()))
+        try:
+            r = fn(job)
+        except Exception as e:  # noqa: BLE001
+            r = {"load": "err", "load_msg": f"worker exception: {e}", "runs": [], "names": []}
+        outq.put(("done", i, r))
+
+
 class Pool:
-    """Process pool that survives a crashing worker: the crashed job is reported, the others are re-run."""
+    """Worker processes that survive a crashing job: the job a worker was running when it died is reported as
+    ``{"load": "crash"}``, a fresh worker takes over, all other jobs complete normally."""
 
     def __init__(self, workers: int):
         self.workers = workers
         self.crashes = 0
 
     def map(self, fn, jobs):
-        from concurrent.futures import ProcessPoolExecutor
-        from concurrent.futures.process import BrokenProcessPool
         import multiprocessing as mp
+        import queue
 
-        results = [None] * len(jobs)
-        pending = list(range(len(jobs)))
+        if not jobs:
+            return []
         ctx = mp.get_context("fork")
-        rounds = 0
-        while pending and rounds < 6:
-            rounds += 1
-            with ProcessPoolExecutor(max_workers=self.workers, mp_context=ctx) as ex:
-                futs = {i: ex.submit(fn, jobs[i]) for i in pending}
-                broken = []
-                for i, f in futs.items():
-                    try:
-                        results[i] = f.result(timeout=600)
-                    except BrokenProcessPool:
-                        broken.append(i)
-                    except Exception as e:  # noqa: BLE001
-                        results[i] = {"load": "err", "load_msg": f"worker exception: {e}", "runs": [], "names": []}
-            if not broken:
+        inq, outq = ctx.Queue(), ctx.Queue()
+        for i, j in enumerate(jobs):
+            inq.put((i, j))
+        n_workers = min(self.workers, len(jobs))
+        procs = {}
+
+        def spawn():
+            p = ctx.Process(target=_worker, args=(fn, inq, outq), daemon=True)
+            p.start()
+            procs[p.pid] = p
+        for _ in range(n_workers):
+            spawn()
+        results = [None] * len(jobs)
+        running = {}  # pid -> job index
+        done = 0
+        idle_rounds = 0
+        while done < len(jobs):
+            try:
+                kind, i, payload = outq.get(timeout=0.5)
+                idle_rounds = 0
+                if kind == "start":
+                    running[payload] = i
+                else:
+                    if results[i] is None:
+                        results[i] = payload
+                        done += 1
+                    for pid, j in list(running.items()):
+                        if j == i:
+                            del running[pid]
+                continue
+            except queue.Empty:
+                idle_rounds += 1
+            for pid, p in list(procs.items()):
+                if not p.is_alive():
+                    del procs[pid]
+                    i = running.pop(pid, None)
+                    if i is not None and results[i] is None:
+                        self.crashes += 1
+                        results[i] = {"load": "crash", "load_msg": "the runtime aborted the process", "runs": [], "names": []}
+                        done += 1
+                    if done < len(jobs):
+                        spawn()
+            if idle_rounds > 1200:  # 10 minutes without any progress
                 break
-            # find the crashing job(s) by running the broken ones one by one in single-job pools
-            pending = []
-            for i in broken:
-                try:
-                    with ProcessPoolExecutor(max_workers=1, mp_context=ctx) as ex1:
-                        results[i] = ex1.submit(fn, jobs[i]).result(timeout=600)
-                except BrokenProcessPool:
-                    self.crashes += 1
-                    results[i] = {"load": "crash", "load_msg": "the runtime aborted the process", "runs": [], "names": []}
-                except Exception as e:  # noqa: BLE001
-                    results[i] = {"load": "err", "load_msg": f"worker exception: {e}", "runs": [], "names": []}
-        return results
+        for _ in procs:
+            inq.put(None)
+        for p in procs.values():
+            p.join(timeout=2)
+            if p.is_alive():
+                p.terminate()
+        return [r if r is not None else {"load": "err", "load_msg": "no result (timeout)", "runs": [], "names": []} for r in results]
